@@ -28,6 +28,8 @@ type Wiring struct {
 	// Stub is a zero stubgen Stub (for listing resolver-backed fields).
 	Stub                 any
 	DefaultImpl, AltImpl reflect.Type
+	// RogueImpl: a Go type that satisfies the abstract Go interfaces but is no object type
+	RogueImpl            reflect.Type
 	DefaultType, AltType string
 	Config               string // configuration name (evidence)
 }
@@ -171,7 +173,7 @@ func (s *Shared) NewInst(c Case, doc *ast.QueryDocument) *Inst {
 
 func (in *Inst) Body() {
 	s := in.S
-	in.Env = &Env{Plan: in.C.Plan, DefaultImpl: s.W.DefaultImpl, AltImpl: s.W.AltImpl, Yield: in.C.Yield, HonourCancel: in.C.Cancel, Intercept: in.C.Intercept}
+	in.Env = &Env{Plan: in.C.Plan, DefaultImpl: s.W.DefaultImpl, AltImpl: s.W.AltImpl, RogueImpl: s.W.RogueImpl, Yield: in.C.Yield, HonourCancel: in.C.Cancel, Intercept: in.C.Intercept}
 	s.cur = in.Env
 	ctx := context.Background()
 	if in.C.Cancel {
